@@ -85,6 +85,8 @@ def eval_expect(case, py, replies):
     for i, r in enumerate(replies):
         if isinstance(r, str) and r.startswith("crash:"):
             out.append("op %d crashed the library: %s" % (i, r))
+        if isinstance(r, str) and r.startswith("violation: "):
+            out.append(r[len("violation: "):])
     return out
 
 
